@@ -2095,16 +2095,19 @@ def _aten_scaled_dot_product_attention_bool_mask_onnx(
     # Turn the Boolean mask to float: attn_mask.masked_fill(not attn_mask, -float('inf'))
     zero = op.Constant(value=ir.tensor(0.0, dtype=query.dtype))
     neg_inf = op.Constant(value=ir.tensor(query.dtype.min, dtype=query.dtype))
+    # A query row that allows no key (padding tokens): PyTorch's safe softmax returns zeros for it
+    row_has_key = op.Cast(
+        op.ReduceMax(op.Cast(attn_mask, to=INT64.dtype), [-1], keepdims=1), to=BOOL.dtype
+    )
     attn_mask = op.Where(attn_mask, zero, neg_inf)
     attn_weight = op.Softmax(
         op.Add(op.MatMul(query_scaled, key_transposed_scaled), attn_mask),
         axis=-1,
     )
-    # When using scaled dot product attention with a boolean mask, the softmax operation might return NaN values
-    # due to the presence of -inf in an entire row (padding tokens), resulting in 0/0 (NaN) in the softmax output.
-    # This is because there's no safe/masked softmax imp in ONNX, so we need to handle NaN values explicitly to match
-    # the behavior of PyTorch with boolean masks.
+    # The mask value is the lowest finite number, not -inf, so a fully masked row does not become NaN:
+    # its softmax is uniform. Zero those rows explicitly to match PyTorch with boolean masks.
     # Reference: https://github.com/pytorch/pytorch/issues/103749
+    attn_weight = op.Where(row_has_key, attn_weight, zero)
     attn_weight = op.Where(op.IsNaN(attn_weight), zero, attn_weight)
     if dropout_p != 0:
         attn_weight, _ = op.Dropout(attn_weight, dropout_p)
